@@ -209,6 +209,27 @@ theorem scipy_exit_implies_residual_bound (ev : Evaluator) (g : List Rat) (tol :
     ∀ e ∈ ev.eqs, ∀ d ∈ evalDates ev.flat, ∃ x, e.eval (ev.array g) d = some x ∧ -tol < x ∧ x < tol :=
   exit_implies_residual_bound ev g tol (exitTest2_implies_exitTest tol htol _ h)
 
+/-- **options in force**: an explicit per-call override decides the mode of that call in both directions (in
+particular `flat=False` on a model created flat selects the growth algorithm); without an override the creation flag
+is used -/
+theorem resolveFlags_override (created : Flags) (l f : Bool) :
+    resolveFlags created (some l) (some f) = ⟨l, f⟩ ∧ resolveFlags created none none = created
+    ∧ (resolveFlags created none (some f)).flat = f ∧ (resolveFlags created (some l) none).linear = l := by
+  cases created; simp [resolveFlags, resolveFlag]
+
+/-- the tolerance of the exit test is the one in force at the call: the user's when given, else the model's equality
+tolerance at that moment -- two calls with the same arguments use the same tolerance whatever happened in between -/
+theorem tolInForce_spec (u e : Rat) : tolInForce (some u) e = u ∧ tolInForce none e = e := by
+  simp [tolInForce]
+
+/-- a block accepted at the tolerance in force is within *that* tolerance (what the multi-step oracle demands of each
+solve of a sequence) -/
+theorem accepted_within_tolerance_in_force (ev : Evaluator) (g : List Rat) (user : Option Rat) (equality : Rat)
+    (h : exitTest (tolInForce user equality) (ev.resid g) = true) :
+    ∀ e ∈ ev.eqs, ∀ d ∈ evalDates ev.flat,
+      ∃ x, e.eval (ev.array g) d = some x ∧ -(tolInForce user equality) < x ∧ x < tolInForce user equality :=
+  exit_implies_residual_bound ev g _ h
+
 /-! ## 4. Frame conditions and plan resolution -/
 
 theorem updMany_of_not_mem (kvs : List (Nat × Cell)) (f : Nat → Cell) (q : Nat)
